@@ -22,6 +22,25 @@ RULES = "C12-a field gate (A11/A2); C12-b message gates (A3/A2); C12-c refusal c
 H = "h3::proto::headers::"
 
 
+def slot_state(p, slot):
+    """'Some' / 'None' / None: what path p established about the pseudo slot, whether it was examined by `.ok_or(E)?`,
+    `.ok_or_else(..)?` or an explicit match / if let."""
+    out = None
+    for t in p.tests:
+        v, flip = t[3], False
+        if v[0] != "discr":
+            continue
+        v = v[1]
+        while v[0] == "call" and pa.short(v[1]) in pa.ADAPTER_NAMES and v[2]:
+            if pa.short(v[1]) in ("ok_or", "ok_or_else"):
+                flip = True
+            v = v[2][0]
+        if pa.vfmt(v) == "param_1.pseudo." + slot:
+            lab = {"Continue": "Ok", "Break": "Err"}.get(t[2], t[2])
+            out = {"Ok": "Some", "Err": "None"}.get(lab, lab) if flip else lab
+    return out
+
+
 def run(ctx):
     prog = ctx.prog
     # ------------------------------------------------------------------ C12-a
@@ -146,9 +165,8 @@ def run(ctx):
                     ctx.check(sh == "Err(HeaderError::ContradictedAuthority)", "C12-b", rq.key, "different :authority and Host -> ContradictedAuthority",
                               "contradictory :authority/Host leads to %s" % sh, "", None, p.describe())
             if sh.startswith("Ok("):
-                ok = p.has_call("core::option::Option::ok_or") and p.has_call("http::uri::builder::Builder::build") and (a_, h_) != ("None", "None")
-                oo = [e for e in p.calls("core::option::Option::ok_or")]
-                ok = ok and any("pseudo.method" in pa.vfmt(e[3][0]) and "MissingMethod" in pa.vfmt(e[3][1]) for e in oo)
+                ok = slot_state(p, "method") == "Some" and p.has_call("http::uri::builder::Builder::build") and (a_, h_) != ("None", "None")
+                ok = ok and any(slot_state(q, "method") == "None" and "MissingMethod" in pa.vfmt(q.ret) and not q.ret_shape().startswith("Ok(") for q in ps)
                 au = [e for e in p.calls("http::uri::builder::Builder::authority")]
                 ok = ok and len(au) == 1
                 ctx.check(ok, "C12-b", rq.key, "Ok only with :method (ok_or MissingMethod), an authority and Uri::builder().build()",
@@ -161,7 +179,8 @@ def run(ctx):
     if rp:
         ps = [p for p in ru.all_paths(ctx, "C12-b", rp) if p.end == "return"]
         okp = [p for p in ps if p.ret_shape().startswith("Ok(")]
-        ok = bool(okp) and all(any("pseudo.status" in pa.vfmt(e[3][0]) and "MissingStatus" in pa.vfmt(e[3][1]) for e in p.calls("core::option::Option::ok_or")) for p in okp)
+        ok = bool(okp) and all(slot_state(p, "status") == "Some" for p in okp) and \
+            any(slot_state(q, "status") == "None" and "MissingStatus" in pa.vfmt(q.ret) and not q.ret_shape().startswith("Ok(") for q in ps)
         ctx.check(ok, "C12-b", rp.key, "Ok only with :status (ok_or MissingStatus)", "into_response_parts paths: %s" % [p.ret_shape() for p in ps], "")
     # must-pass-through at the three receive sites
     sites = [("h3::server::request::ResolvedRequest::resolve::{closure#0}", "into_request_parts", "Ok("),
